@@ -18,9 +18,10 @@ Python it transcribes (tree = pinned tree + the `fix:` commits of branch `fix-c1
 * `parseJsonPost`            `_xpath31_functions.py :: parse-json` post-processing (`decode_value`,
                              `json_object_pairs_to_map` with the duplicates policies)
 -/
+import EPV.Spec.RFC8259
 namespace EPV.Json
-
-abbrev Str := List Nat
+-- the data types `Str`, `Dec`, `JValue`, `DupPolicy` come from the spec file; nothing else is used from it
+-- except where a model function says so explicitly (`numberOfText`).
 
 /-! ## Python `str.replace` -/
 
@@ -164,5 +165,293 @@ def f17aTrigger : Str → Bool
       | d :: r => d == 98 || d == 102 || d == 110 || d == 114 || d == 116 ||
           (d == 117 && 4 ≤ r.length && (hexRun? (r.take 4)).isSome)
       | [] => false)) || f17aTrigger t
+
+/-! ## json.dumps(ensure_ascii=True) string encoding + serialize_to_json -/
+
+/-- `json.encoder.py_encode_basestring_ascii` / `c_encode_basestring_ascii`:
+`ESCAPE_ASCII = ([\\"]|[^\ -~])`, `ESCAPE_DCT` for `\\ " \b \f \n \r \t`, otherwise `\uxxxx`
+(lower-case hex), code points ≥ 0x10000 as a UTF-16 surrogate pair. -/
+def pyDumpsChar (c : Nat) : Str :=
+  if c = 92 then [92, 92] else if c = 34 then [92, 34]
+  else if c = 8 then [92, 98] else if c = 12 then [92, 102] else if c = 10 then [92, 110]
+  else if c = 13 then [92, 114] else if c = 9 then [92, 116]
+  else if 32 ≤ c ∧ c ≤ 126 then [c]
+  else if c < 0x10000 then [92, 117] ++ hex4L c
+  else
+    let v := c - 0x10000
+    [92, 117] ++ hex4L (0xD800 + v / 1024 % 1024) ++ [92, 117] ++ hex4L (0xDC00 + v % 1024)
+
+/-- decimal digits of a natural number, most significant first (`int.__repr__`); fuel ≥ number of digits -/
+def natDigitsF : Nat → Nat → List Nat
+  | 0, _ => []
+  | f + 1, n => if n < 10 then [n] else natDigitsF f (n / 10) ++ [n % 10]
+
+def natDigits (n : Nat) : List Nat := natDigitsF (n + 1) n
+
+def digitChars (ds : List Nat) : Str := ds.map (48 + ·)
+
+/-- `int.__repr__` -/
+def renderInt (n : Int) : Str :=
+  if n < 0 then 45 :: digitChars (natDigits n.natAbs) else digitChars (natDigits n.natAbs)
+
+/-- `float.__repr__` (`format_float_short(x, 'r', 0, Py_DTSF_ADD_DOT_0, …)` in CPython's
+`pystrtod.c`) applied to the shortest digit string `d.digits` with decimal point position `d.decpt`
+(value `0.d₁…dₖ × 10^decpt`; digit generation `_Py_dg_dtoa` mode 0 is a TRUSTED parameter):
+exponent notation iff `decpt ≤ -4` or `decpt > 16`; exponent with sign and at least two digits. -/
+def reprDouble (d : Dec) : Str :=
+  let sign : Str := if d.neg then [45] else []
+  let k : Int := d.digits.length
+  let body : Str :=
+    if d.decpt ≤ -4 ∨ d.decpt > 16 then
+      let e : Int := d.decpt - 1
+      let ed := natDigits e.natAbs
+      let ed := if ed.length < 2 then 0 :: ed else ed
+      let mant : Str := match d.digits with
+        | [] => []
+        | [a] => [48 + a]
+        | a :: rest => (48 + a) :: 46 :: digitChars rest
+      mant ++ [101, if e < 0 then 45 else 43] ++ digitChars ed
+    else if d.decpt ≤ 0 then
+      [48, 46] ++ List.replicate (-d.decpt).toNat 48 ++ digitChars d.digits
+    else if d.decpt < k then
+      digitChars (d.digits.take d.decpt.toNat) ++ [46] ++ digitChars (d.digits.drop d.decpt.toNat)
+    else
+      digitChars d.digits ++ List.replicate (d.decpt - k).toNat 48 ++ [46, 48]
+  sign ++ body
+
+mutual
+/-- `json.dumps(v, separators=(',', ':'))` with the string encoder `esc` -/
+def render (esc : Nat → Str) : JValue → Str
+  | .null => [110, 117, 108, 108]
+  | .bool true => [116, 114, 117, 101]
+  | .bool false => [102, 97, 108, 115, 101]
+  | .int n => renderInt n
+  | .dbl d => reprDouble d
+  | .str s => 34 :: (s.flatMap esc ++ [34])
+  | .arr l => 91 :: renderL esc l
+  | .obj m => 123 :: renderM esc m
+/-- the members of an array followed by `]` -/
+def renderL (esc : Nat → Str) : List JValue → Str
+  | [] => [93]
+  | v :: t => render esc v ++ (match t with | [] => [93] | _ :: _ => 44 :: renderL esc t)
+/-- the members of an object followed by `}` -/
+def renderM (esc : Nat → Str) : List (Str × JValue) → Str
+  | [] => [125]
+  | (k, v) :: t =>
+    34 :: (k.flatMap esc ++ [34, 58]) ++ render esc v ++
+      (match t with | [] => [125] | _ :: _ => 44 :: renderM esc t)
+end
+
+def pyDumps (v : JValue) : Str := render pyDumpsChar v
+
+/-- serialization.py :: serialize_to_json for one JSON-representable item:
+`json.dumps(x, cls=XPathEncoder, ensure_ascii=True, separators=(',', ':'))` then
+`result = parts[0].replace('/', '\\/')`.  (XDM side, fixed tree: `()` as array member or map entry
+is `null`; an `xs:decimal` goes through `float()`, i.e. arrives here as the `dbl` of its nearest
+double -- trusted.) -/
+def serializeJson (v : JValue) : Str := replaceAll [47] [92, 47] (pyDumps v)
+
+/-- PINNED TREE (F17b): `Decimal(obj).quantize(Decimal("0.01"), ROUND_UP)` on the decimal
+`(-1)^neg × unscaled × 10^-scale`: the result as unscaled hundredths (rounded away from zero). -/
+def quantize2UpOld (unscaled scale : Nat) : Nat :=
+  if scale ≤ 2 then unscaled * 10 ^ (2 - scale)
+  else (unscaled + 10 ^ (scale - 2) - 1) / 10 ^ (scale - 2)
+
+/-- trigger predicate of F17b on the pinned tree: more than two significant fraction digits -/
+def f17bTrigger (unscaled scale : Nat) : Bool :=
+  scale > 2 && unscaled % 10 ^ (scale - 2) != 0
+
+/-! ## json-to-xml / xml-to-json (default options) -/
+
+inductive Tag where
+  | null | boolean | number | string | array | map
+  deriving Repr, DecidableEq, Inhabited
+
+/-- an element of the F&O §17.4.2 vocabulary: tag, `key` attribute, text, element children -/
+inductive Elem where
+  | mk (tag : Tag) (key : Option Str) (text : Option Str) (children : List Elem)
+  deriving Repr, Inhabited
+
+inductive Err where
+  | FOJS0003 | FOJS0006 | FOJS0007 | other
+  deriving Repr, DecidableEq, Inhabited
+
+/-- `is_xml_codepoint` (helpers.py:263-267) -/
+def isXmlCodepoint (cp : Nat) : Bool :=
+  cp == 9 || cp == 10 || cp == 13 || (0x20 ≤ cp && cp ≤ 0xD7FF) || (0xE000 ≤ cp && cp ≤ 0xFFFD) ||
+    (0x10000 ≤ cp && cp ≤ 0x10FFFF)
+
+/-- `''.join(x if is_xml_codepoint(ord(x)) else fallback(...) for x in v)` with the (fixed) default
+fallback U+FFFD -/
+def xmlFallback (s : Str) : Str := s.map fun c => if isXmlCodepoint c then c else 0xFFFD
+
+/-- `json_object_to_etree`: the `keys` set and the `duplicates` option (`retain` is the default,
+`None`, of a call without options) applied to the *raw* keys -/
+def j2xPairs {α} (p : DupPolicy) : List Str → List (Str × α) → Except Err (List (Str × α))
+  | _, [] => .ok []
+  | seen, (k, v) :: t =>
+    if k ∈ seen then
+      match p with
+      | .useFirst => j2xPairs p seen t
+      | .reject => .error .FOJS0003
+      | _ => (j2xPairs p seen t).map ((k, v) :: ·)
+    else (j2xPairs p (k :: seen) t).map ((k, v) :: ·)
+
+mutual
+/-- `value_to_etree(v, **attrib)` with `attrib = {'key': …}` or none -/
+def toElem (p : DupPolicy) (key : Option Str) : JValue → Except Err Elem
+  | .null => .ok (.mk .null key none [])
+  | .bool b => .ok (.mk .boolean key (some (if b then [116, 114, 117, 101] else [102, 97, 108, 115, 101])) [])
+  | .int n => .ok (.mk .number key (some (renderInt n)) [])          -- str(int)
+  | .dbl d => .ok (.mk .number key (some (reprDouble d)) [])         -- str(float)
+  | .str s => .ok (.mk .string key (some (xmlFallback s)) [])
+  | .arr l => (toElemL p l).map (Elem.mk .array key none)
+  | .obj m => (toElemM p [] m).map (Elem.mk .map key none)
+def toElemL (p : DupPolicy) : List JValue → Except Err (List Elem)
+  | [] => .ok []
+  | v :: t => do
+    let e ← toElem p none v
+    let es ← toElemL p t
+    pure (e :: es)
+/-- `json_object_to_etree` fused with the conversion of the member values; `seen` = the `keys` set -/
+def toElemM (p : DupPolicy) (seen : List Str) : List (Str × JValue) → Except Err (List Elem)
+  | [] => .ok []
+  | (k, v) :: t =>
+    if k ∈ seen then
+      match p with
+      | .useFirst => toElemM p seen t
+      | .reject => .error .FOJS0003
+      | _ => do
+        let e ← toElem p (some (xmlFallback k)) v
+        let es ← toElemM p seen t
+        pure (e :: es)
+    else do
+      let e ← toElem p (some (xmlFallback k)) v
+      let es ← toElemM p (k :: seen) t
+      pure (e :: es)
+end
+
+/-- fn:json-to-xml on a parsed JSON text (default options: `duplicates` = retain) -/
+def jsonToXml (v : JValue) (p : DupPolicy := .retain) : Except Err Elem := toElem p none v
+
+/-- `text.rstrip('0').rstrip('.')` -/
+def rstripZerosDot (t : Str) : Str :=
+  let a := (t.reverse.dropWhile (· == 48))
+  (a.dropWhile (· == 46)).reverse
+
+/-- the number branch of `elem_to_json` (fixed tree): `number = DoubleProxy(value)`,
+`text = str(number)`, `text if 'e' in text else text.rstrip('0').rstrip('.')`.
+`float(value)` followed by `str` is modelled as: read the literal (RFC 8259 number syntax, the only
+texts json-to-xml produces), take its decimal normal form, format it with `reprDouble`.
+TRUSTED: for literals with ≤ 15 significant digits, and for literals that are themselves the `repr`
+of a double, `repr(float(lit))` has exactly the significant digits of `lit`. -/
+def numberOfText (value : Str) : Except Err Str :=
+  match parseNum value with
+  | some (.int n, []) =>
+    let t := reprDouble (normDec (decide (n < 0)) (natDigits n.natAbs) (natDigits n.natAbs).length)
+    .ok (if 101 ∈ t then t else rstripZerosDot t)
+  | some (.dbl d, []) =>
+    let t := reprDouble d
+    .ok (if 101 ∈ t then t else rstripZerosDot t)
+  | _ => .error .other
+
+def joinComma : List Str → Str
+  | [] => []
+  | [a] => a
+  | a :: b :: t => a ++ 44 :: joinComma (b :: t)
+
+mutual
+/-- `elem_to_json((e,))` for one element (_xpath31_functions.py:1134-1245, fixed tree, elements
+without `escaped` / `escaped-key` attributes) -/
+def elemToJson : Elem → Except Err Str
+  | .mk .null _ text _ =>
+    if text.isSome then .error .FOJS0006 else .ok [110, 117, 108, 108]
+  | .mk .boolean _ text _ =>
+    let t := text.getD []
+    if t = [116, 114, 117, 101] ∨ t = [49] then .ok [116, 114, 117, 101]
+    else if t = [102, 97, 108, 115, 101] ∨ t = [48] then .ok [102, 97, 108, 115, 101]
+    else .error .other
+  | .mk .number _ text _ => numberOfText (text.getD [])
+  | .mk .string _ text children =>
+    if !children.isEmpty then .error .FOJS0006
+    else .ok (34 :: (escapeJsonString (text.getD []) ++ [34]))
+  | .mk .array _ _ children => do
+    let cs ← elemsToJson children
+    pure (91 :: (joinComma cs ++ [93]))
+  | .mk .map _ _ children => do
+    let cs ← membersToJson [] children
+    pure (123 :: (joinComma cs ++ [125]))
+def elemsToJson : List Elem → Except Err (List Str)
+  | [] => .ok []
+  | e :: t => do
+    let c ← elemToJson e
+    let cs ← elemsToJson t
+    pure (c :: cs)
+/-- the `for e in child:` loop of the map branch; `seen` = `map_keys` -/
+def membersToJson (seen : List Str) : List Elem → Except Err (List Str)
+  | [] => .ok []
+  | e :: t =>
+    match e with
+    | .mk _ none _ _ => .error .FOJS0006
+    | .mk _ (some key) _ _ => do
+      let k := escapeJsonString key
+      let c ← elemToJson e
+      match unescapeJsonString k with
+      | none => .error .other
+      | some uk =>
+        if uk ∈ seen then .error .FOJS0006 else do
+          let cs ← membersToJson (uk :: seen) t
+          pure ((34 :: (k ++ [34, 58]) ++ c) :: cs)
+end
+
+/-- fn:xml-to-json on the root element -/
+def xmlToJson (e : Elem) : Except Err Str := elemToJson e
+
+/-! ## fn:parse-json post-processing -/
+
+/-- `decode_value` on a string (default `fallback`: U+FFFD) -/
+def pjString (s : Str) : Str := s.map fun c => if isXmlCodepoint c then c else 0xFFFD
+
+/-- `items[key] = value` on an insertion-ordered dict -/
+def dictSet {α} (k : Str) (v : α) : List (Str × α) → List (Str × α)
+  | [] => [(k, v)]
+  | (k', v') :: t => if k' = k then (k, v) :: t else (k', v') :: dictSet k v t
+
+/-- `json_object_pairs_to_map` after the member values have been converted; keys are decoded
+*before* the duplicate test -/
+def pjPairs {α} (p : DupPolicy) : List (Str × α) → List (Str × α) → Except Err (List (Str × α))
+  | items, [] => .ok items
+  | items, (k, v) :: t =>
+    let key := pjString k
+    if items.any (·.1 == key) then
+      match p with
+      | .useFirst => pjPairs p items t
+      | .reject => .error .FOJS0003
+      | _ => pjPairs p (dictSet key v items) t
+    else pjPairs p (dictSet key v items) t
+
+mutual
+/-- fn:parse-json after Python's `json` has read the text: `decode_value` + `json_object_pairs_to_map` -/
+def pjPost (p : DupPolicy) : JValue → Except Err JValue
+  | .str s => .ok (.str (pjString s))
+  | .arr l => (pjPostL p l).map JValue.arr
+  | .obj m => do
+    let m' ← pjPostM p m
+    let items ← pjPairs p [] m'
+    pure (.obj items)
+  | v => .ok v
+def pjPostL (p : DupPolicy) : List JValue → Except Err (List JValue)
+  | [] => .ok []
+  | v :: t => do
+    let v' ← pjPost p v
+    let t' ← pjPostL p t
+    pure (v' :: t')
+def pjPostM (p : DupPolicy) : List (Str × JValue) → Except Err (List (Str × JValue))
+  | [] => .ok []
+  | (k, v) :: t => do
+    let v' ← pjPost p v
+    let t' ← pjPostM p t
+    pure ((k, v') :: t')
+end
 
 end EPV.Json
